@@ -185,6 +185,16 @@ def seed3():
 
 
 SEEDS = [("seed1", seed1), ("seed2", seed2), ("seed3", seed3)]
+# (object, path, replacement) of the single faults that exposed a defect since repaired in /repo
+CORPUS = {
+    "seed1": [(3, "Resources/ColorSpace/Cs", []), (3, "Resources/ColorSpace/Cs/1", [1, 2]), (22, "<dict>/N", "REMOVE"),
+              (10, "DescendantFonts", None)],
+    "seed2": [(13, "FontBBox", None), (14, "DescendantFonts", None), (15, "DW2", Name("X")), (15, "DW2/0", Name("X")),
+              (15, "DW2/1", "REMOVE"), (15, "DW2", {"A": 1}), (15, "W2/1/1", b"str"), (15, "W2/2", 1.5), (5, "<data>", "randomised")],
+    "seed3": [(5, "<dict>/Filter/0", "REMOVE"), (8, "<dict>/Length1", None), (14, "DW", b"str"), (5, "<dict>/DecodeParms/0", b"str"),
+              (5, "<dict>/DecodeParms/1/Columns", -1), (5, "<dict>/DecodeParms/1/Columns", 10 ** 12), (12, "<data>", "halved"),
+              (22, "<dict>/BitsPerComponent", 0), (22, "<dict>/Width", Name("X")), (22, "<data>", "halved")],
+}
 REPL = [0, -1, 1.5, 10 ** 12, Name("X"), b"str", [], [1, 2], {}, {"A": 1}, None, True, "SELF", "MISSING", "CYCLE", "REMOVE"]
 
 
@@ -326,10 +336,20 @@ def fault_cases(ctx, per_seed, ntrunc):
             for p in sites(v):
                 reps = ["halved", "emptied", "randomised", "extended"] if p[-1] == "<data>" else REPL
                 jobs += [(n, p, rep) for rep in reps]
+        all_jobs = list(jobs)
         r = ctx.sub("faults", sname)
         r.shuffle(jobs)
         if per_seed:
             jobs = jobs[:per_seed]
+        # the faults that found the defects repaired in /repo run first, in every tier (regression corpus)
+        first = [j for j in CORPUS.get(sname, []) if any(j[0] == n and "/".join(map(str, p)) == j[1] for n, p, _ in all_jobs)]
+        pick = []
+        for n0, p0, rep0 in first:
+            for n, p, rep in all_jobs:
+                if n == n0 and "/".join(map(str, p)) == p0 and repr(rep) == repr(rep0):
+                    pick.append((n, p, rep))
+                    break
+        jobs = pick + [j for j in jobs if j not in pick]
         for n, p, rep in jobs:
             o2 = apply_fault(objs, n, p, rep, ctx.sub("fault", sname, n, repr(p), repr(rep)))
             try:
@@ -392,6 +412,13 @@ def struct_cases(ctx, limit):
     r.shuffle(jobs)
     if limit:
         jobs = jobs[:limit]
+    # the faults that found the defects repaired in /repo run first, in every tier (regression corpus)
+    corpus = [("xrefstream", 0, ("Index", 9), 0), ("xrefstream", 0, ("Index", 3), True), ("xrefstream", 0, ("Index", 5), True),
+              ("xrefstream", 1, "W", []), ("xrefstream", 0, "W", None), ("xrefstream", 0, "Size", "REMOVE"),
+              ("xrefstream", 0, "Index", 10 ** 12), ("xrefstream", 1, "Index", -1), ("objstm", 0, "N", 1.5), ("objstm", 1, "N", []),
+              ("trailer", 1, "Prev", -1), ("hybridtrailer", 0, "XRefStm", -1)]
+    corpus += [(kind, idx, key, off) for kind, idx, key in sites if key in ("Prev", "XRefStm") for off in offsets]
+    jobs = corpus + [j for j in jobs if j not in corpus]
     for kind, idx, key, rep in jobs:
         seen = {}
 
@@ -453,6 +480,11 @@ def crypt_cases(ctx, limit):
     r.shuffle(jobs)
     if limit:
         jobs = jobs[:limit]
+    # regression corpus: the faults that exposed the defects repaired in /repo, in every tier
+    corpus = [(0, ("__ID__",), [1, 2]), (0, ("__ID__", 0), 0), (0, ("__ID__", 0), "REMOVE"), (0, ("P",), 10 ** 12), (0, ("P",), Name("X")),
+              (0, ("O",), "REMOVE"), (0, ("R",), "REMOVE"), (1, ("Length",), 0), (1, ("Length",), 1.5), (4, ("CF",), {"A": 1}),
+              (4, ("CF", "StdCF"), 0), (4, ("StmF",), "REMOVE"), (6, ("UE",), 0), (6, ("OE",), "REMOVE"), (7, ("U",), b"str")]
+    jobs = corpus + [j for j in jobs if j not in corpus]
     for ci, p, rep in jobs:
         d = docs[ci]
         e2 = copy.deepcopy(d["enc"].encrypt_dict())
